@@ -5,11 +5,11 @@ from . import base
 ID = 'C01'
 LEVEL = 'exploration'
 PLAN = {
-    'quick': [('synth', 24000), ('synth_cli', 6000), ('synth_reuse', 5000), ('shipped', 960)],
-    'thorough': [('synth', 900000), ('synth_cli', 200000), ('synth_reuse', 200000), ('shipped', 40000)],
+    'quick': [('synth', 24000), ('synth_cli', 6000), ('synth_reuse', 5000), ('synth_writeback', 4000), ('shipped', 960)],
+    'thorough': [('synth', 900000), ('synth_cli', 200000), ('synth_reuse', 200000), ('synth_writeback', 150000), ('shipped', 40000)],
 }
 DEADLINE = {'quick': 200, 'thorough': 3300}
-PROBES = ['store-reused-after-edit', 'line-reattempted', 'refusal-with-waiters-outstanding', 'abort-after-prompts',
+PROBES = ['second-solve-on-written-back-file', 'store-reused-after-edit', 'line-reattempted', 'refusal-with-waiters-outstanding', 'abort-after-prompts',
           'not-solved-by-model', 'cli-failure-text-checked']
 ASSUMPTIONS = [
     'the reference model R1 (simtax/refmodel.py) is a correct reading of "every demanded line was really computed"',
@@ -32,7 +32,39 @@ def cli_script(case, seed):
     return cli
 
 
+def eval_writeback(case, acc=None):
+    """history: interactive solve with write-back (possibly cut short), then a plain `habutax solve` on the written file.
+    What the user supplied is tracked by the harness (initial file + answers actually given) - not read back from the
+    file habutax wrote - and the second run is judged against the model on exactly that."""
+    import os
+    from .. import crash
+    from . import c20
+    world = c20.synth_world(case)
+    path = os.path.join(simrun.scratch_dir(), 'c01_wb.ini')
+    crash.write_text(path, c20.initial_text(case, 'synth'))
+    h = case['hist']
+    run1 = crash.session(world, path, {'prompt': h['prompt'], 'writeback': True, 'solution': False,
+                                       'interrupt': [h['refuse_at'], 'ctrlc'] if h.get('refuse_at') is not None else None})
+    truth = sorted(set(crash.names_of(run1.before_items)) | set(run1.answers))
+    run2 = crash.session(world, path, {'prompt': False, 'writeback': False, 'solution': False})
+    noise = {f'{sec}.{key}' for sec, key, _ in case.get('noise') or []}
+    run2.supplied = [n for n in truth if n in case['persona'] or n in noise]
+    r1 = simrun.model_for(case, run2)
+    fs = [f for f in simrun.judge_common(run2, r1) if f['property'] == ID]
+    if acc is not None:
+        base.synth_stats(case, run2, r1, acc)
+        acc.count('probe:second-solve-on-written-back-file')
+        if run1.answers:
+            acc.count('fault:split-file/prompt')
+        if r1.verdict != 'solved':
+            acc.count('probe:not-solved-by-model')
+            acc.add('nontrivial', base.case_digests(case, run2))
+    return fs
+
+
 def evaluate(case, engine, acc=None):
+    if engine == 'synth_writeback':
+        return eval_writeback(case, acc)
     if engine == 'synth_reuse':
         # a second solve on the same InputStore after inputs were deleted / re-set through its mapping API
         _, run, case, edits = simrun.execute_reuse(case, case.get('reuse_seed', 0))
@@ -84,6 +116,10 @@ def run_one(engine, seed, acc, tier):
         case['cli'] = cli_script(case, seed)
     if engine == 'synth_reuse':
         case['reuse_seed'] = seed
+    if engine == 'synth_writeback':
+        r = core.Rng(core.h64('c01wb', seed))
+        case['hist'] = {'prompt': r.chance(0.8), 'refuse_at': r.pick([None, 0, 0, 1, 2])}
+        case['file'] = [n for n in case['file'] if r.chance(0.6) or case['persona'][n]['invalid'] or '\n' in case['persona'][n]['text']]
     for f in evaluate(case, engine, acc):
         acc.violation(base.violation(ID, f, case, seed, engine))
 
